@@ -286,10 +286,10 @@ func c04(ctx *core.Ctx) {
 		bo.Switched = ti%4 == 2 // the router was configured back and forth before use
 		c := rt.Build(t, bo)
 		rr := ctx.Rand(ti, "req")
+		var reqs []rt.Req
 		for qi := 0; qi < perTable; qi++ {
 			req := rt.GenReq(rr, t, router)
-			tokens, clean := rt.Tokens(req.Path)
-			if !clean {
+			if _, clean := rt.Tokens(req.Path); !clean {
 				continue
 			}
 			entry := rt.Dispatch
@@ -298,6 +298,26 @@ func c04(ctx *core.Ctx) {
 			}
 			out := rt.Run(c, entry, &req)
 			ctx.Eval(1)
+			judgeC04(ctx, ti, t, router, entry, &req, out)
+			reqs = append(reqs, req)
+		}
+		if ti%3 == 0 {
+			// the same bindings while 8 goroutines share the container (parameters belong to their own request)
+			concurrentBatch(c, rt.Dispatch, reqs, 8, func(i int, out *rt.Outcome) {
+				ctx.Eval(1)
+				ctx.Count("concurrent_requests", 1)
+				judgeC04(ctx, ti, t, router, rt.Dispatch+"-concurrent", &reqs[i], out)
+			})
+		}
+	}
+}
+
+// judgeC04 compares the parameters every invoked handler saw with the reference bindings.
+func judgeC04(ctx *core.Ctx, ti int, t *rt.Table, router, entry string, reqp *rt.Req, out *rt.Outcome) {
+	req := *reqp
+	tokens, _ := rt.Tokens(req.Path)
+	{
+		{
 			for _, iv := range out.Obs.Invokes {
 				s, rs := t.Route(iv.RID)
 				if rs == nil {
@@ -420,10 +440,34 @@ func c14(ctx *core.Ctx) {
 		}
 		t := rt.GenTable(r, o)
 		ctx.Case(ti, "router="+router+" table="+core.JSON(t))
-		c := rt.Build(t, rt.DefaultBuild(router))
+		bo14 := rt.DefaultBuild(router)
+		bo14.Switched = ti%4 == 2 // the container's router was configured back and forth before use
+		bo14.Dynamic = withOptions && ti%2 == 1
+		c, wss := rt.BuildWS(t, bo14)
 		if withOptions {
 			// the Allow header the OPTIONS filter computes is also "decided by the framework"
 			c.Filter(c.OPTIONSFilter)
+		}
+		if bo14.Dynamic {
+			// history: OPTIONS for p alone, then a route is added to a registered WebService, then the pairs
+			pr := ctx.Rand(ti, "req")
+			for qi := 0; qi < perTable; qi += 2 {
+				q := rt.GenReq(pr, t, router)
+				q.Method = "OPTIONS"
+				q.Path = strings.TrimRight(q.Path, "/")
+				if strings.HasPrefix(q.Path, "/") && q.Path != "" {
+					rt.Run(c, rt.Dispatch, &q)
+				}
+			}
+			si := r.Intn(len(t.Svcs))
+			if len(t.Svcs[si].Routes) > 0 && wss[si] != nil {
+				nr := t.Svcs[si].Routes[r.Intn(len(t.Svcs[si].Routes))]
+				nr.ID = 9000 + ti
+				nr.Method = r.Pick(rt.Methods)
+				t.Svcs[si].Routes = append(t.Svcs[si].Routes, nr)
+				rt.AddRoute(wss[si], &t.Svcs[si].Routes[len(t.Svcs[si].Routes)-1], bo14)
+				ctx.Count("route_added_after_options_probe", 1)
+			}
 		}
 		rr := ctx.Rand(ti, "req")
 		for qi := 0; qi < perTable; qi++ {
